@@ -28,10 +28,24 @@ def prune(spec: dict[str, Any]) -> dict[str, Any]:
 
 
 def shrink(spec: dict[str, Any], fails: Callable[[dict[str, Any]], bool],
-           max_rounds: int = 6) -> dict[str, Any]:
+           max_rounds: int = 8, vset: int = 0) -> dict[str, Any]:
     cur = prune(spec)
     if not fails(cur):
-        return spec
+        # the failure is tied to a node that does not feed an output (e.g. a
+        # construction error): make the earliest such node the only output
+        cur = None
+        for n in spec["nodes"]:
+            cand = copy.deepcopy(spec)
+            cand["outputs"] = {"out0": n["id"]}
+            cand = prune(cand)
+            try:
+                if fails(cand):
+                    cur = cand
+                    break
+            except Exception:  # noqa: BLE001
+                pass
+        if cur is None:
+            return spec
     for _ in range(max_rounds):
         changed = False
         # 1. single outputs
@@ -45,7 +59,7 @@ def shrink(spec: dict[str, Any], fails: Callable[[dict[str, Any]], bool],
                     break
         # 2. replace a node by a fresh input of the same shape/dtype
         try:
-            sh = ps.Shadow(cur, 0)
+            sh = ps.Shadow(cur, vset)
         except Exception:  # noqa: BLE001
             sh = None
         if sh is not None:
